@@ -54,7 +54,11 @@ func main() {
 		scenarios = append(scenarios,
 			scenario{"three-spans-two-ticks", 1, []spanSpec{{"t1", "a", false}, {"t2", "b", true}, {"t1", "c", true}}, []time.Duration{100 * time.Millisecond, 100 * time.Millisecond}})
 	}
-	r.Sharded(len(scenarios), func(si, sn int) {
+	r.Sharded(len(scenarios)+len(watcherScenarios), func(si, sn int) {
+		if si >= len(scenarios) {
+			watcherShard(r, bound+1, watcherScenarios[si-len(scenarios)])
+			return
+		}
 		sc := scenarios[si]
 		var n *e3node.Node
 		var accepted []string
@@ -153,6 +157,7 @@ func main() {
 		}
 	})
 	r.Set("preemption_bound_completed", bound)
+	r.Set("watcher_part_preemption_bound_completed", bound+1)
 	r.Set("traces_validated_against_impl", r.Count("executions"))
 	r.Assume("routers are stopped before the collector (startstop reverse dependency order), so no AddSpan overlaps collector.Stop")
 	r.Assume("one collector worker; deterministic sampler rate 1 (every decided trace is kept) so 'decided and forwarded' is observable as arrival at the in-memory upstream")
